@@ -433,6 +433,50 @@ fn family_octets(rep: &mut Report, g: &mut Gen, thorough: bool) {
     absorb(rep, g, outs, 0);
 }
 
+/// Every record type value: to the codec a record of a type it gives no meaning to is opaque
+/// octets, whatever they look like -- a compression pointer, a name, nothing at all.  For every
+/// type 0..65535 that is not one of the name-carrying types (and not OPT), four rdata shapes in the
+/// answer and the additional section; decode(encode(m)) = m and the independent decoder agrees.
+fn types_pkt(t: u16, shape: usize) -> dnspkt::DNSPkt {
+    let q: Name = vec![b"t".to_vec(), b"example".to_vec()];
+    let mut p = base_pkt(&q);
+    let rdata: Vec<u8> = match shape {
+        0 => vec![],
+        1 => vec![0xc0, 0x0c],
+        2 => vec![3, b'w', b'w', b'w', 0xc0, 0x0c],
+        _ => vec![0, 1, 0, 1, 3, b'w', b'w', b'w', 1, b't', 7, b'e', b'x', b'a', b'm', b'p', b'l', b'e', 0],
+    };
+    for section in [0usize, 2] {
+        let r = Rr { name: q.clone(), rtype: t, class: 1, ttl: 77, rdata: Rdata::Raw(rdata.clone()) };
+        put(&mut p, section, &r);
+        // a name-carrying record after it, so that a wrongly recorded name would be pointed at
+        put(&mut p, section, &mk_rr(rd::T_CNAME, &q, &vec![b"www".to_vec(), b"t".to_vec(), b"example".to_vec()], &vec![], 30));
+    }
+    p
+}
+
+fn family_types(rep: &mut Report, g: &mut Gen, thorough: bool) {
+    let named: [u16; 11] = [rd::T_NS, rd::T_CNAME, rd::T_PTR, rd::T_MX, rd::T_RT, rd::T_AFSDB, rd::T_RP, rd::T_SOA, rd::T_NAPTR, rd::T_OPT, 0];
+    let ts: Vec<u16> = (0..=65535u16).filter(|t| !named.contains(t)).filter(|t| thorough || *t <= 300 || *t % 251 == 0 || *t >= 65280 || (32767..=32770).contains(t)).collect();
+    let mut cases = vec![];
+    for t in ts {
+        for shape in 0..4usize {
+            cases.push((t, shape));
+        }
+    }
+    let outs: Vec<Outcome> = cases
+        .par_iter()
+        .map(|(t, shape)| {
+            let case = json!({"engine":"c14","family":"types","type":t,"shape":shape});
+            let mut o = judge_structured(&types_pkt(*t, *shape), "types", case);
+            // one class per outcome, not per type
+            o.class = format!("types:shape{shape}:{}", if o.viol.is_some() { "viol" } else { "ok" });
+            o
+        })
+        .collect();
+    absorb(rep, g, outs, 0);
+}
+
 /// Large record sets: n records with one and the same owner name (the question's, or another),
 /// spread over one, two or three sections -- every n up to 300, and a few larger ones.
 fn rrset_pkt(n: usize, own: usize, split: usize) -> dnspkt::DNSPkt {
@@ -720,6 +764,12 @@ pub fn run(tier: &str, replay: Option<Value>) -> ! {
                     rep.violation(v.sig("family", "bytes"));
                 }
             }
+            Some("types") => {
+                let p = types_pkt(case["type"].as_u64().unwrap_or(1) as u16, case["shape"].as_u64().unwrap_or(0) as usize);
+                if let Some(v) = judge_structured(&p, "types", case.clone()).viol {
+                    rep.violation(v);
+                }
+            }
             Some("rrset") => {
                 let p = rrset_pkt(case["n"].as_u64().unwrap_or(1) as usize, case["owner"].as_u64().unwrap_or(0) as usize, case["split"].as_u64().unwrap_or(0) as usize);
                 if let Some(v) = judge_structured(&p, "rrset", case.clone()).viol {
@@ -758,6 +808,7 @@ pub fn run(tier: &str, replay: Option<Value>) -> ! {
     family_chain(&mut rep, &mut g);
     family_octets(&mut rep, &mut g, thorough);
     family_rrset(&mut rep, &mut g, thorough);
+    family_types(&mut rep, &mut g, thorough);
     let e2 = g.evals;
     family_boundary(&mut rep, &mut g, thorough);
     let e3 = g.evals;
@@ -768,7 +819,7 @@ pub fn run(tier: &str, replay: Option<Value>) -> ! {
     let e5 = g.evals;
     rep.cov("evaluations", g.evals);
     rep.cov("distinct_nontrivial", g.classes.len() as u64);
-    rep.cov("rule", "structured: every (question, section, type, owner, rdata-name[s]) over names of depth<=2 (thorough 3) on labels {a,b,63x}; every 3-record sequence over an 8-record alphabet x section split; for every name-carrying type and name slot a new name written in record data and one of 5 suffix shapes of it used by a second record (owner or either rdata slot, 7 types) x 3 questions x 3 section pairs; names extending one another label by label to every chain length 1..127 (3 shapes); record sets of n records with one owner name (n = 1..300 -- quick: every n to 40, around 128 and 256, every 8th otherwise -- and up to 4000) x 3 owners x 1-3 sections; for every octet value 0..255 five names made of that octet (labels of 1, 2, 63 octets, up to the longest legal name of 255 wire octets) x question/owner x record data x record type (quick 2, thorough 6); name first written at every offset 0x3fe0..0x4020, 0xff80..0xffb0 (+ sweep) x 5 follow-ups; header/EDNS product. bytes: every additional section of <=3 records over {2 address records, 4 differing OPT records} (several OPT records, OPT between other records) encoded by the reference encoder; base encodings x every offset x byte values (quick 14 boundary values, thorough all 256) + own-offset + every truncation. distinct = (family, size class, pointer count / acceptance shape) classes");
+    rep.cov("rule", "structured: every (question, section, type, owner, rdata-name[s]) over names of depth<=2 (thorough 3) on labels {a,b,63x}; every 3-record sequence over an 8-record alphabet x section split; for every name-carrying type and name slot a new name written in record data and one of 5 suffix shapes of it used by a second record (owner or either rdata slot, 7 types) x 3 questions x 3 section pairs; names extending one another label by label to every chain length 1..127 (3 shapes); every record type value the codec gives no meaning to (quick: 0..300, every 251st, 32767..32770, 65280..65535; thorough: all 65525) x 4 opaque rdata shapes (empty, a compression pointer, a label then a pointer, an SRV-like name) x answer / additional section; record sets of n records with one owner name (n = 1..300 -- quick: every n to 40, around 128 and 256, every 8th otherwise -- and up to 4000) x 3 owners x 1-3 sections; for every octet value 0..255 five names made of that octet (labels of 1, 2, 63 octets, up to the longest legal name of 255 wire octets) x question/owner x record data x record type (quick 2, thorough 6); name first written at every offset 0x3fe0..0x4020, 0xff80..0xffb0 (+ sweep) x 5 follow-ups; header/EDNS product. bytes: every additional section of <=3 records over {2 address records, 4 differing OPT records} (several OPT records, OPT between other records) encoded by the reference encoder; base encodings x every offset x byte values (quick 14 boundary values, thorough all 256) + own-offset + every truncation. distinct = (family, size class, pointer count / acceptance shape) classes");
     rep.cov("exhaustive", true);
     rep.cov("parts", json!({"single": e1, "multi": e2 - e1, "boundary": e3 - e2, "header": e4 - e3, "bytes": e5 - e4}));
     let mut samples = pick_samples(&g.samples, 4, rep.seed);
